@@ -49,7 +49,7 @@
 (*            tensor is emitted as R.E_ref.R^T (or left out, den = 0) and  *)
 (*            the harness finishes V^(2m) with python fractions.           *)
 (*                                                                         *)
-(* HSpec - HISTORIES on ONE object (cfg Strain_hist_q / _hist_t /          *)
+(* HSpec - HISTORIES on ONE object (cfg Strain_hist_q/_hist_t/_mapfail/    *)
 (*         _map_t / _map_asis): the strain API is asked repeatedly while   *)
 (*         the object is changed in between.  The law is the same in both  *)
 (*         kinds: EVERY ANSWER IS THE EXACT TENSOR OF THE CURRENT STATE    *)
@@ -92,6 +92,15 @@
 (*            reference GIVEN = the property's tensor:                     *)
 (*            Q^T.E(s/k).Q / q.E(s/k).q^T; gd, rd do not occur in it),     *)
 (*            HPolarOK, HDecorTracked (set_ubi drops what is carried)      *)
+(*     REQUESTS THAT RAISE: AskFail (eps_* with a reference that is no     *)
+(*            cell - five parameters, None, degenerate -, a singular        *)
+(*            reference grain, an m that is no multiple of 1/2), DGTFail   *)
+(*            (DeformationGradientTensor from a flattened ubi, None, a     *)
+(*            singular ub0 asked for m = -1), DAskFail (the existing       *)
+(*            object asked for a bad m); constant GFAILS.  Invariant       *)
+(*            HNoTrace: a request that raises leaves the state as it found *)
+(*            it - every later answer is judged by HAnswersCurrent as if   *)
+(*            the request had never been made.                             *)
 (*   kind "map"    ImageD11/sinograms/tensor_map.py:581-635 (item / add_map*)
 (*       / UBI setter, clear_cache), :749-840 (dzero_unitcell, eps_sample, *)
 (*       eps_crystal, eps_hydro, eps_devia with their caches in self.maps) *)
@@ -110,23 +119,39 @@
 (*            ids in insertion order), dz (where the reference cell of a   *)
 (*            voxel comes from: "phases" = looked up in the dictionary,    *)
 (*            "maps" = an explicit dzero_unitcell map was handed over -    *)
-(*            the cells of the phases dictionary are then DECORATION)]     *)
+(*            the cells of the phases dictionary are then DECORATION),     *)
+(*            miss (how the map is INCOMPLETE for a strain request:        *)
+(*            "phase_ids" no such map - TensorMap.from_ubis / from_pbpmap; *)
+(*            "pidshape" a phase_ids map of another shape; "phase_entry" a *)
+(*            phases entry that is no unitcell; "none"); cur = 0 is a      *)
+(*            malformed UBI map]                                           *)
 (*     actions MReadFrame / MReadPart (f), MAssign(way = setter | item |   *)
 (*            add_map, version), MSetDz(way = item | add_map: an explicit  *)
 (*            dzero_unitcell map is given; modelled only while no strain   *)
 (*            map is cached - add_map clears caches for "UBI" alone, :613),*)
 (*            MTouch (read U, B, UB, mt, unitcell, euler, dzero_unitcell)  *)
+(*            REQUESTS THAT RAISE (constant MFAILS): MReadFail (a strain   *)
+(*            map or dzero_unitcell asked while Blocked: the reference     *)
+(*            cells cannot be looked up / the UBI map is malformed),       *)
+(*            MRepair (phase_ids by item | add_map, the phases entry),     *)
+(*            MAssignBad (a malformed UBI map, version 0); MSetDz and      *)
+(*            MAssign repair as well                                       *)
 (*     invariants MapExpCurrent (the property's answer mentions the        *)
 (*            current version only), MapRepairedCurrent (holds),           *)
 (*            MapAsIsCurrent (VIOLATED by the code as it was - cfg         *)
 (*            Strain_map_asis: read, assign, read), DzeroByKey (reference  *)
 (*            cell of a voxel is looked up by phase id, not by position in *)
 (*            the dictionary), DzSourceOK (an explicit map, once given,    *)
-(*            is the reference of every later read)                        *)
+(*            is the reference of every later read), MapNoTrace (a request *)
+(*            that raises leaves the state as it found it: nothing cached, *)
+(*            registered or half-filled - the reads after the repair are   *)
+(*            judged as if it had never been made), MapRaisesIffBlocked    *)
 (*   HEmit prints one JSON record per finished history; the harness binds  *)
 (*   versions / states to exact deformations and replays the operations on *)
 (*   ONE real object.  Histories are drawn by `tlc -simulate` (seeded) in  *)
-(*   Strain_hist_*.cfg and enumerated exhaustively in Strain_map_t.cfg.    *)
+(*   Strain_hist_*.cfg and enumerated exhaustively in Strain_map_t.cfg     *)
+(*   (4 operations, complete maps) and Strain_mapfail.cfg (3 operations,   *)
+(*   maps that may be incomplete, with the requests that raise).           *)
 (***************************************************************************)
 EXTENDS ExactLA, Json
 
@@ -143,6 +168,8 @@ CONSTANTS REFS,        \* set of <<L0, <<U0n, n0>> >>
           HU0R,        \* histories: right-angle orientations of the reference grain object
           HSCALES,     \* histories: scales <<n, d>> of the reference cell: a reference given / a ref_unitcell carried is k.L0
           MTOUCHES,    \* map histories: the other computed maps a history may read (subset of MTouchAll)
+          MFAILS,      \* map histories: how a TensorMap may be INCOMPLETE for a strain request (subset of MFailAll)
+          GFAILS,      \* grain histories: the invalid requests a history may make (subset of GFailAll)
           HLEN,        \* operations per grain history (the constructor included)
           PHASEDICTS,  \* map histories: phase ids in dictionary insertion order
           NVER,        \* map histories: number of distinct UBI maps
@@ -532,6 +559,28 @@ ReadDGT == /\ HGo /\ hst.hd
                                                    ELSE <<VOf(d.s, d.q), SMM(d.q, d.Q), ConjT(d.Q, d.s)>>])
            /\ UNCHANGED <<cvars, hmode, hst>>
 
+\* REQUESTS THAT RAISE.  A strain request the code cannot answer raises: a reference that is no cell (five
+\* parameters, None, a degenerate cell: unitcell.py raises), a reference grain whose ubi is singular (grain.UB:
+\* LinAlgError), an m that is no multiple of 1/2 (finite_strain.py:99 / :125 assert), a DeformationGradientTensor
+\* built from a flattened ubi / from None (:56-60) or from a singular ub0 and asked for a negative m (matrix_power
+\* of a singular stretch).  The law: A REQUEST THAT RAISES LEAVES NO TRACE - the grain, the reference grain and the
+\* DeformationGradientTensor object that existed before answer afterwards as if it had never been made (hst is
+\* unchanged; `pre` records the state the request found).
+GFailAll == {"short_cell", "none_ref", "degenerate_cell", "bad_m", "singular_ref", "flat_ubi"}
+AskFail == /\ HGo
+           /\ \E b \in GFAILS \ {"flat_ubi"}, fr \in {"ref", "lab"} :
+                 hist' = Append(hist, [op |-> "askfail", bad |-> b, frame |-> fr, pre |-> hst])
+           /\ UNCHANGED <<cvars, hmode, hst>>
+DGTFail == /\ HGo
+           /\ \E b \in GFAILS \cap {"none_ref", "singular_ref", "flat_ubi"} :
+                 hist' = Append(hist, [op |-> "dgtfail", bad |-> b, pre |-> hst])
+           /\ UNCHANGED <<cvars, hmode, hst>>
+DAskFail == /\ HGo /\ hst.hd /\ "bad_m" \in GFAILS
+            /\ \E fr \in {"ref", "lab"} :
+                  hist' = Append(hist, [op |-> "daskfail", bad |-> "bad_m", frame |-> fr, pre |-> hst])
+            /\ UNCHANGED <<cvars, hmode, hst>>
+HNoTrace == (hmode = "grain" /\ HLast.op \in {"askfail", "dgtfail", "daskfail"}) => HLast.pre = hst
+
 \* every answer is the exact tensor of the state the object is in NOW, seen from the reference that was GIVEN in
 \* the request (Ask / AskDGT leave hst alone, so the state after the action is the state that was asked).  The
 \* right-hand side mentions the grain's s, q, the reference's orientation and the scale k of the reference given:
@@ -623,16 +672,28 @@ DzTable(pd) == [j \in 1..8 |-> DzOf(pd, j - 2)]           \* index j = phase id 
 
 \* dzx: an explicit dzero_unitcell map is among the maps the TensorMap is built from (:751-756 takes it as it is);
 \* the cells of the phases dictionary are then decoration
-HInitMap == \E pd \in PHASEDICTS, dzx \in BOOLEAN :
+\* inc: the map is built INCOMPLETE for a strain request (TensorMap.from_ubis / from_pbpmap hand out maps without
+\* phase_ids; a phase_ids map of another shape; a phases entry that is no unitcell object); which way is fixed per
+\* dictionary (MissOf) so that `tlc -simulate` keeps starting about as many grain as map histories
+MFailAll == {"phase_ids", "pidshape", "phase_entry", "ubi"}
+MFailNone == {}
+MissSeq == <<"phase_ids", "pidshape", "phase_entry">>
+MissOf(pd) == LET m == MissSeq[((Len(pd) + pd[1]) % 3) + 1] IN IF m \in MFAILS THEN m ELSE "none"
+\* a strain request (and T.dzero_unitcell itself) RAISES while the reference cells cannot be looked up (:757-760:
+\* AttributeError / IndexError) or while the UBI map is malformed (version 0: the kernels refuse it)
+Blocked(st) == st.cur = 0 \/ (st.dz = "phases" /\ st.miss # "none")
+HInitMap == \E pd \in PHASEDICTS, dzx \in BOOLEAN, inc \in BOOLEAN :
+               /\ (inc => ~dzx /\ MissOf(pd) # "none")
                /\ hmode = "map"
                /\ hst = [cur |-> 1, first |-> "n", cache |-> NoCache, rcache |-> NoCache, pd |-> pd,
-                         dz |-> IF dzx THEN "maps" ELSE "phases"]
-               /\ hist = << [op |-> "newmap", pd |-> pd, dz |-> DzTable(pd), ver |-> 1, dzx |-> dzx] >>
+                         dz |-> IF dzx THEN "maps" ELSE "phases", miss |-> IF inc THEN MissOf(pd) ELSE "none"]
+               /\ hist = << [op |-> "newmap", pd |-> pd, dz |-> DzTable(pd), ver |-> 1, dzx |-> dzx,
+                              miss |-> IF inc THEN MissOf(pd) ELSE "none"] >>
 
 MGo == hmode = "map" /\ Len(hist) < MLEN
 
 MReadIn(names) ==
-         /\ MGo
+         /\ MGo /\ ~Blocked(hst)
          /\ \E f \in names :
                LET a == Rd(f, hst.cache, hst.cur)
                    r == Rd(f, hst.rcache, hst.cur)
@@ -667,9 +728,39 @@ MSetDz == /\ MGo /\ hst.dz = "phases" /\ hst.first = "n" /\ hst.rcache = NoCache
 \* clear_cache; dzero_unitcell is computed from the phases dictionary once and kept)
 MTouchAll == {"U", "B", "UB", "mt", "unitcell", "euler", "dzero_unitcell"}
 MTouchNone == {}
-MTouch == /\ MGo
+MTouch == /\ MGo /\ ~Blocked(hst)
           /\ \E w \in MTOUCHES : hist' = Append(hist, [op |-> "touch", what |-> w])
           /\ UNCHANGED <<cvars, hmode, hst>>
+
+\* REQUESTS THAT RAISE (law: a request that raises leaves no trace).  MReadFail: one of the four strain maps, or
+\* dzero_unitcell itself ("z"), is asked while Blocked: the code raises; nothing may be cached, registered or
+\* half-filled by it (hst unchanged, `pre` = the state the request found).  MRepair: the user completes the map
+\* (T["phase_ids"] = ids | T.add_map("phase_ids", ids) | T.phases[id] = unitcell) - which clears nothing, rightly:
+\* nothing was there.  MAssignBad: a malformed UBI map (version 0: flattened 3x3 / None) is assigned in one of the
+\* three ways; every strain read then raises until a proper version is assigned.  An explicit dzero_unitcell map
+\* (MSetDz, or given at construction) makes phase_ids / phases unnecessary: `miss` is decoration then.
+MReadFail == /\ MGo /\ Blocked(hst)
+             /\ \E f \in MAPS \cup {"z"} :
+                   LET bymiss == hst.dz = "phases" /\ hst.miss # "none" IN
+                   /\ (f = "z" => bymiss)
+                   /\ hist' = Append(hist, [op |-> "readfail", f |-> f, why |-> IF bymiss THEN hst.miss ELSE "ubi",
+                                            pre |-> hst])
+             /\ UNCHANGED <<cvars, hmode, hst>>
+MRepair == /\ MGo /\ hst.miss # "none"
+           /\ \E w \in {"item", "add_map"} :
+                 /\ hst' = [hst EXCEPT !.miss = "none"]
+                 /\ hist' = Append(hist, [op |-> "repair", what |-> hst.miss, way |-> w])
+           /\ UNCHANGED <<cvars, hmode>>
+MAssignBad == /\ MGo /\ "ubi" \in MFAILS /\ hst.cur # 0
+              /\ \E w \in {"setter", "item", "add_map"} :
+                    /\ hst' = [hst EXCEPT !.cur = 0, !.first = "n", !.rcache = NoCache]
+                    /\ hist' = Append(hist, [op |-> "assign", way |-> w, ver |-> 0])
+              /\ UNCHANGED <<cvars, hmode>>
+MapNoTrace == (hmode = "map" /\ HLast.op = "readfail") => HLast.pre = hst
+MapRaisesIffBlocked == hmode = "map" => /\ (HLast.op = "read" => ~Blocked(hst) /\ hst.cur \in 1..NVER)
+                                        /\ (HLast.op = "readfail" => Blocked(hst))
+                                        /\ (HLast.op = "repair" => hst.miss = "none")
+                                        /\ (hst.miss # "none" => (hst.miss \in MFAILS /\ (hst.rcache = NoCache \/ hst.dz = "maps")))
 
 MapExpCurrent == (hmode = "map" /\ HLast.op = "read") => TagCurrent(HLast.exp, hst.cur)
 MapRepairedCurrent == (hmode = "map" /\ HLast.op = "read") => HLast.rep = HLast.exp
@@ -687,7 +778,8 @@ HInit == /\ CaseOff
          /\ \/ ("grain" \in HKINDS /\ HInitGrain)
             \/ ("map" \in HKINDS /\ HInitMap)
 HNext == SetUbi \/ ChangeRef \/ Decorate \/ Touch \/ AskRef \/ AskLab \/ AskRefG \/ AskLabG \/ MakeDGT \/ AskDGTRef \/ AskDGTLab \/ ReadDGT
-         \/ MReadFrame \/ MReadPart \/ MAssign \/ MSetDz \/ MTouch
+         \/ AskFail \/ DGTFail \/ DAskFail
+         \/ MReadFrame \/ MReadPart \/ MAssign \/ MSetDz \/ MTouch \/ MReadFail \/ MRepair \/ MAssignBad
 HSpec == HInit /\ [][HNext]_vars
 HDone == (hmode = "grain" /\ Len(hist) = HLEN) \/ (hmode = "map" /\ Len(hist) = MLEN)
 HEmit == ~HDone \/ PrintT("@@" \o ToJson([kind |-> hmode, hist |-> hist]))
@@ -705,6 +797,7 @@ HU0RAll == { RotI, Perm3, Rot3(A0,A0,A90), Rot3(A180,A270,A0) }
 HScalesAll == { K1, <<11, 10>>, <<9, 10>> }       \* the harness lifts them to 501/500, 499/500 (a refined d-zero) as well
 PhaseDicts == { <<0>>, <<3>>, <<0, 1, 2>>, <<1, 2, 3>>, <<0, 2, 5>>, <<2, 1, 0>>, <<1, 0>>, <<5, 0, 2>> }
 PhaseDictsMapT == { <<0, 1>>, <<5, 0, 2>> }
+PhaseDictsFail == { <<0, 2, 5>>, <<1, 2, 3>>, <<5, 0, 2>> }      \* one dictionary per way of being incomplete
 
 \* ---------------------------------------------------------------- sanity of the constants
 ASSUME \A q \in ROTS \cup OBJROTS \cup OBJU0 \cup OBJU0R : IsRot(q)
@@ -717,7 +810,8 @@ ASSUME \A r \in HREFS : IsRot(r[2]) /\ r[2][2] = 1 /\ IsUpper(r[1]) /\ Det(r[1])
 ASSUME (\A q \in HROTS : IsRot(q) /\ q[2] \in {1, 5}) /\ (\E q \in HROTS : q[2] > 1)
 ASSUME \A u \in HU0R : IsRot(u) /\ u[2] = 1
 ASSUME \A s \in HSTRETCHES : IsSym(s[1]) /\ PosDef(s[1]) /\ s[2] = 10
-ASSUME MTOUCHES \subseteq MTouchAll
+ASSUME MTOUCHES \subseteq MTouchAll /\ MFAILS \subseteq MFailAll /\ GFAILS \subseteq GFailAll
+ASSUME MFAILS = MFailAll => { MissOf(pd) : pd \in PhaseDictsFail } = MFailAll \ {"ubi"}
 ASSUME K1 \in HSCALES /\ (\E kk \in HSCALES : kk # K1) /\ (\A kk \in HSCALES : kk[1] > 0 /\ kk[2] > 0 /\ Gcd(kk[1], kk[2]) = 1)
 ASSUME SDivK(<<Diag(11,10,9), 10>>, <<11, 10>>) = <<Diag(11,10,9), 11>>
 ASSUME \A pd \in PHASEDICTS : /\ \A i \in DOMAIN pd : pd[i] \in 0..5
